@@ -48,7 +48,12 @@ META = {
         "PyYAML, three order-insensitive fingerprints (guards = tested expression x operator x character set; stream "
         "effects; emitted chunks/returns) equal those extracted from the installed yaml/scanner.py and yaml/reader.py, "
         "modulo a tabled list of deliberate deviations. R5: every TokenizeError carries Position values taken from the "
-        "stream, clone() shifts both marks by the same offsets and the offsets reach it un-crossed."
+        "stream, get_position() binds each Position field to the cursor field of the same name, clone() shifts both marks by "
+        "the same offsets (directly or through a helper) and the offsets reach it un-crossed. R6: the state machine around the "
+        "scanners - block/quoted scalars are dispatched on exactly the characters PyYAML's fetch_more_tokens uses and receive "
+        "that character as style, scanners left/right of the ':' get is_key True/False, every pending key reaches a yield "
+        "before it is overwritten or the generator ends and no key is yielded twice (path rule over _to_tokens' CFG), and the "
+        "result pair is (key.value, value.value or '')."
     ),
     "not_decided": "equality of the returned (key, value) pairs with a YAML loader for every string (runtime-valued); boolean-flag context of guards (double/is_key/folded polarity) is only covered where it changes a fingerprint",
     "trusted_base": [
@@ -72,8 +77,75 @@ def optmod(corpus: Corpus) -> Module:
 # R1 closed failure mode
 
 
+class _Held:
+    """Report proxy: holds back escape findings about int(<hex>, 16) / chr(code) in the tokenizer so that C07 can
+    re-judge them with its own character facts (the engine's discharge knows one spelling of the validation only)."""
+
+    def __init__(self, rep: Report):
+        self._rep = rep
+        self.held: list = []
+
+    def violation(self, rule_id, key, site, what, path=None):
+        origin = key.split("|origin=", 1)[1] if "|origin=" in key else ""
+        fq, _, text = origin.partition("|")
+        if fq.startswith(f"myst_parser.{OPT}:") and text.startswith(("int(", "chr(")):
+            self.held.append((rule_id, key, site, what, path, fq, text))
+        else:
+            self._rep.violation(rule_id, key, site, what, path)
+
+    def __getattr__(self, name):
+        return getattr(self._rep, name)
+
+
+def _hex_value_ok(e9, fi: FunctionInfo, call: ast.Call) -> str | None:
+    """why int(X, 16) cannot raise: X is prefix(N) and the N characters were validated as hex digits"""
+    if not (len(call.args) == 2 and isinstance(call.args[1], ast.Constant) and call.args[1].value == 16):
+        return None
+    cfg = get_cfg(fi)
+    st = cfg.stmt_of(call)
+    src_ = e9.prefix_len_name(call.args[0], fi, st)
+    if src_ is None:
+        return None
+    if src_[1] is not None and e9.intervening(cfg, src_[1], st, e9.killers(fi, {src_[0]})):
+        return None
+    g_ = e9.validated(fi, src_[0], st, within=frozenset("0123456789abcdefABCDEF"))
+    if g_ is None:
+        return None
+    lo, _ = e9.sign_info(fi, src_[0], st)
+    if lo is None or lo < 1:
+        return None  # int("", 16) raises
+    return f"the {src_[0]} (>= {lo}) characters passed the hex-digit validation at line {g_.lineno}"
+
+
+def _rejudge(e9, corpus: Corpus, fq: str, text: str) -> str | None:
+    fi = corpus.func(fq.replace("myst_parser.", "", 1))
+    cfg = get_cfg(fi)
+    for call in (c for c in fi.local_nodes() if isinstance(c, ast.Call) and short(c) == text):
+        name = dotted(call.func)
+        if name == "int":
+            return _hex_value_ok(e9, fi, call)
+        if name == "chr" and len(call.args) == 1 and isinstance(call.args[0], ast.Name):
+            st = cfg.stmt_of(call)
+            code = call.args[0].id
+            ds = e9.reaching(fi, code, st)
+            if not (len(ds) == 1 and isinstance(ds[0], ast.Assign) and isinstance(ds[0].value, ast.Call) and dotted(ds[0].value.func) == "int"):
+                return None
+            why = _hex_value_ok(e9, fi, ds[0].value)
+            if why is None:
+                return None
+            for t, pol in cfg.guards(st):
+                if not pol and isinstance(t, ast.Compare) and len(t.ops) == 1 and isinstance(t.left, ast.Name) and t.left.id == code and isinstance(t.comparators[0], ast.Constant) and isinstance(t.comparators[0].value, int):
+                    c = t.comparators[0].value
+                    if (isinstance(t.ops[0], ast.Gt) and c <= 0x10FFFF) or (isinstance(t.ops[0], ast.GtE) and c <= 0x110000):
+                        return f"0 <= {code} <= 0x10FFFF: {why}; range test dominates"
+            return None
+    return None
+
+
 @rule("C07.R1")
 def r1_closed_failure_mode(corpus: Corpus, rep: Report, tier: str):
+    real = rep
+    rep = _Held(real)
     escape_closure(
         corpus,
         rep,
@@ -81,6 +153,15 @@ def r1_closed_failure_mode(corpus: Corpus, rep: Report, tier: str):
         [(None, f"{OPT}:options_to_items", ["myst_parser.parsers.options.TokenizeError"])],
         "Esc(options_to_items) is within {TokenizeError}; table look-ups are dominated by their membership test",
     )
+    held, rep = rep.held, real
+    if held:
+        e9 = get_e9(corpus)
+        for rule_id, key, site, what, path, fq, text in held:
+            why = _rejudge(e9, corpus, fq, text)
+            if why:
+                rep.ok(rule_id, key, site, "discharged by C07's character facts: " + why)
+            else:
+                rep.violation(rule_id, key, site, what, path)
     # table look-ups: TABLE[key] must be dominated by `key in TABLE` (KeyError otherwise)
     m = optmod(corpus)
     tables = {n for n, v in m.const_nodes.items() if isinstance(v, ast.Dict)}
@@ -307,6 +388,16 @@ def _position_kind(e: ast.expr | None, fi: FunctionInfo, corpus: Corpus, depth: 
             return _position_kind(e.args[0], fi, corpus, depth + 1)
         if d.endswith(".Position"):
             return "bad", "hand-built Position(...)"
+        h = _replace_helper(e, fi, corpus)
+        if h is not None:
+            hf, rcall = h
+            params = hf.params[1:] if hf.cls is not None else hf.params
+            name = rcall.args[0].id
+            idx = params.index(name) if name in params else -1
+            arg = e.args[idx] if 0 <= idx < len(e.args) else next((kw.value for kw in e.keywords if kw.arg == name), None)
+            if any(k.arg == "index" for k in rcall.keywords):
+                return "bad", "replace(..., index=...) moves the index"
+            return _position_kind(arg, fi, corpus, depth + 1)
         return "unknown", f"call {short(e, 40)}"
     if isinstance(e, ast.IfExp):
         a = _position_kind(e.body, fi, corpus, depth + 1)
@@ -354,6 +445,55 @@ def _position_kind(e: ast.expr | None, fi: FunctionInfo, corpus: Corpus, depth: 
     return "bad" if isinstance(e, (ast.BinOp, ast.Tuple, ast.JoinedStr)) else "unknown", f"expression {short(e, 40)}"
 
 
+class _Subst(ast.NodeTransformer):
+    def __init__(self, mapping: dict):
+        self.mapping = mapping
+
+    def visit_Name(self, node):
+        if node.id in self.mapping:
+            return ast.parse(self.mapping[node.id], mode="eval").body
+        return node
+
+
+def _replace_helper(call: ast.Call, fi: FunctionInfo, corpus: Corpus):
+    """(helper FunctionInfo, its replace(...) call) when ``call`` invokes a package function that just returns
+    dataclasses.replace(<its parameter>, ...)"""
+    for t in get_callgraph(corpus).resolve_call(call, fi):
+        if isinstance(t, FunctionInfo) and not t.is_lambda:
+            rets = [r for r in t.local_nodes() if isinstance(r, ast.Return)]
+            if len(rets) == 1 and isinstance(rets[0].value, ast.Call) and t.module.resolve(dotted(rets[0].value.func) or "") == "dataclasses.replace" and rets[0].value.args:
+                p0 = rets[0].value.args[0]
+                if isinstance(p0, ast.Name) and p0.id in t.params:
+                    return t, rets[0].value
+    return None
+
+
+def _shift_sites(clone: FunctionInfo, corpus: Corpus) -> list:
+    """[(text of the shifted mark, node for the site, {field: text of the new value})] for every
+    dataclasses.replace(mark, ...) clone() performs, directly or through a helper"""
+    m = clone.module
+    out = []
+    for c in clone.local_nodes():
+        if not isinstance(c, ast.Call):
+            continue
+        if m.resolve(dotted(c.func) or "") == "dataclasses.replace" and c.args:
+            out.append((unparse(c.args[0]), c, {kw.arg: unparse(kw.value) for kw in c.keywords if kw.arg}))
+            continue
+        h = _replace_helper(c, clone, corpus)
+        if h is not None and not any(isinstance(a, ast.Starred) for a in c.args):
+            hf, rcall = h
+            params = hf.params[1:] if hf.cls is not None else hf.params
+            mapping = {p: unparse(a) for p, a in zip(params, c.args)}
+            mapping.update({kw.arg: unparse(kw.value) for kw in c.keywords if kw.arg})
+            kws = {}
+            for kw in rcall.keywords:
+                if kw.arg:
+                    v = _Subst(mapping).visit(ast.parse(unparse(kw.value), mode="eval").body)
+                    kws[kw.arg] = unparse(v)
+            out.append((mapping.get(rcall.args[0].id, "?"), c, kws))
+    return out
+
+
 @rule("C07.R5")
 def r5_positions(corpus: Corpus, rep: Report, tier: str):
     rep.rule("C07.R5", "every TokenizeError carries Position values taken from the stream; clone() shifts both marks by the same offsets; offsets reach clone() un-crossed")
@@ -398,34 +538,58 @@ def r5_positions(corpus: Corpus, rep: Report, tier: str):
                     )
     if nsites < 8:
         rep.error("C07.R5", f"expected at least 8 TokenizeError constructions, found {nsites}")
+    # StreamBuffer.get_position(): each Position field is fed from the cursor field of the same name
+    gp = m.func("StreamBuffer.get_position")
+    pos_fields = [st.target.id for st in m.cls("Position").node.body if isinstance(st, ast.AnnAssign) and isinstance(st.target, ast.Name)]
+    ctor = [c for c in gp.local_nodes() if isinstance(c, ast.Call) and dotted(c.func) == "Position"]
+    if len(ctor) != 1 or any(isinstance(a, ast.Starred) for a in ctor[0].args):
+        rep.error("C07.R5", f"{gp.site()} get_position(): Position(...) construction not understood")
+    else:
+        bound = dict(zip(pos_fields, ctor[0].args))
+        bound.update({kw.arg: kw.value for kw in ctor[0].keywords if kw.arg})
+        for fld in pos_fields:
+            k = f"{gp.fq}|Position.{fld} <- cursor {fld}"
+            a = bound.get(fld)
+            src_ = unparse(a) if a is not None else "<missing>"
+            if src_ in (f"self._{fld}", f"self.{fld}"):
+                rep.ok("C07.R5", k, m.site(ctor[0]))
+            elif a is not None and not (isinstance(a, ast.Attribute) and isinstance(a.value, ast.Name) and a.value.id == "self"):
+                rep.error("C07.R5", f"{m.site(ctor[0])} get_position(): {fld}={src_} not understood")
+            else:
+                rep.violation("C07.R5", k, m.site(ctor[0]), f"Position.{fld} is fed from {src_}: every error position (and token mark) reports {fld} from another counter")
     # clone(): both marks shifted by (line_offset -> line, column_offset -> column); context_mark guarded against None
     clone = m.func("TokenizeError.clone")
     cp = clone.params[1:]
     if len(cp) != 2:
         raise Unsupported("TokenizeError.clone signature not understood")
     line_p, col_p = cp
-    reps = [c for c in clone.local_nodes() if isinstance(c, ast.Call) and m.resolve(dotted(c.func) or "") == "dataclasses.replace" and c.args]
-    marks = {unparse(c.args[0]): c for c in reps}
+    sites = _shift_sites(clone, corpus)
+    marks = {}
+    for mark_text, node, kws in sites:
+        marks.setdefault(mark_text, (node, kws))
+    ret_args = [unparse(a) for r in clone.local_nodes() if isinstance(r, ast.Return) and isinstance(r.value, ast.Call) for a in r.value.args]
     for mark in ("self.problem_mark", "self.context_mark"):
         k = f"{clone.fq}|{mark} shifted by ({line_p}, {col_p})"
-        c = marks.get(mark)
-        if c is None:
-            rep.violation("C07.R5", k, clone.site(), f"clone() does not shift {mark} with dataclasses.replace: the cloned error reports an unshifted or foreign position")
+        if mark not in marks:
+            if mark in ret_args:
+                rep.violation("C07.R5", k, clone.site(), f"clone() passes {mark} on unshifted: the cloned error reports block-relative coordinates")
+            else:
+                rep.error("C07.R5", f"{clone.site()} clone(): no dataclasses.replace({mark}, line=..., column=...) found, directly or in a helper it calls - shape not understood")
             continue
-        kws = {kw.arg: kw.value for kw in c.keywords}
+        c, kws = marks[mark]
         bad = []
         for fld, p in (("line", line_p), ("column", col_p)):
             v = kws.get(fld)
             want = {f"{mark}.{fld} + {p}", f"{p} + {mark}.{fld}"}
-            if v is None or unparse(v) not in want:
-                bad.append(f"{fld}={unparse(v) if v is not None else '<unchanged>'} (expected {mark}.{fld} + {p})")
+            if v is None or v not in want:
+                bad.append(f"{fld}={v if v is not None else '<unchanged>'} (expected {mark}.{fld} + {p})")
         if set(kws) - {"line", "column"}:
             bad.append("also replaces " + ", ".join(sorted(set(kws) - {"line", "column"})))
         if bad:
             rep.violation("C07.R5", k, m.site(c), "clone() shifts the mark wrongly: " + "; ".join(bad))
         else:
             rep.ok("C07.R5", k, m.site(c))
-    c = marks.get("self.context_mark")
+    c = marks["self.context_mark"][0] if "self.context_mark" in marks else None
     if c is not None:
         k = f"{clone.fq}|context_mark None-guard"
         p = parent(c)
@@ -567,6 +731,7 @@ class Side:
                 self.fortargets.add(n.target.id)
         self._busy = set()
         self.depth = 0
+        self._validation = None
 
     def _bind(self, t, v):
         if isinstance(t, ast.Name):
@@ -640,8 +805,8 @@ class Side:
         if isinstance(e, ast.Subscript):
             if isinstance(e.value, ast.Attribute) and self.is_recv(e.value.value) and ATTR_CANON.get(e.value.attr, e.value.attr) == "buffer":
                 if isinstance(e.slice, ast.Slice):
-                    return "buffer[:]"
-                return "buffer[]"
+                    return f"buffer[{self.norm(e.slice.lower)}:{self.norm(e.slice.upper)}]"
+                return f"buffer[{self.norm(e.slice)}]"
             try:
                 tab = self.const(e.value)
                 if isinstance(tab, dict):
@@ -732,7 +897,7 @@ class Side:
             if isinstance(f, ast.Attribute) and self.is_recv(f.value):
                 if f.attr == "forward" or f.attr in CANON_Y:
                     out.append("do:" + self.norm(n))
-                elif f.attr in ("peek", "prefix"):
+                elif f.attr in ("peek", "prefix") and id(n) not in self.validation()[2]:
                     out.append("read:" + self.norm(n))
             elif isinstance(f, ast.Name) and f.id in CANON:
                 out.append("do:" + self.norm(n))
@@ -742,6 +907,58 @@ class Side:
             elif isinstance(f, ast.Attribute) and f.attr in ("append", "extend") and isinstance(f.value, ast.Name) and n.args:
                 out.append(f"emit:{f.attr}({self.norm(n.args[0])})")
         return out
+
+    def validation(self):
+        """'the next N characters are all in S, else leave' in either spelling - a range(N) loop over peek(k), or
+        any()/all() over prefix(N) - reads as one guard: ([guard], consumed compare nodes, ids of absorbed peek(k) reads)"""
+        if self._validation is not None:
+            return self._validation
+        guards, consumed, reads = [], set(), set()
+        self._validation = (guards, consumed, reads)
+        for n in self.fi.local_nodes():
+            if isinstance(n, ast.For) and isinstance(n.target, ast.Name) and isinstance(n.iter, ast.Call) and dotted(n.iter.func) == "range" and len(n.iter.args) == 1:
+                k = n.target.id
+                for st in n.body:
+                    if not (isinstance(st, ast.If) and not st.orelse and isinstance(st.body[-1], (ast.Raise, ast.Return)) and isinstance(st.test, ast.Compare) and len(st.test.ops) == 1 and isinstance(st.test.ops[0], ast.NotIn)):
+                        continue
+                    left = st.test.left
+                    if isinstance(left, ast.Call) and isinstance(left.func, ast.Attribute) and self.is_recv(left.func.value) and left.func.attr == "peek" and len(left.args) == 1 and isinstance(left.args[0], ast.Name) and left.args[0].id == k:
+                        try:
+                            cs = as_charset(self.const(st.test.comparators[0]))
+                        except NotConst:
+                            cs = None
+                        if cs is not None:
+                            guards.append((f"all:prefix({self.norm(n.iter.args[0])})", "in", "".join(sorted(cs))))
+                            consumed.add(st.test)
+                            for c in ast.walk(n):
+                                if isinstance(c, ast.Call) and isinstance(c.func, ast.Attribute) and c.func.attr == "peek" and c.args and isinstance(c.args[0], ast.Name) and c.args[0].id == k:
+                                    reads.add(id(c))
+            elif isinstance(n, ast.Call) and isinstance(n.func, ast.Name) and n.func.id in ("any", "all") and len(n.args) == 1 and isinstance(n.args[0], ast.GeneratorExp):
+                ge = n.args[0]
+                if len(ge.generators) != 1 or ge.generators[0].ifs or not isinstance(ge.generators[0].target, ast.Name):
+                    continue
+                c, elt = ge.generators[0].target.id, ge.elt
+                want = ast.NotIn if n.func.id == "any" else ast.In
+                if not (isinstance(elt, ast.Compare) and len(elt.ops) == 1 and isinstance(elt.ops[0], want) and isinstance(elt.left, ast.Name) and elt.left.id == c):
+                    continue
+                src_ = self.norm(ge.generators[0].iter)
+                try:
+                    cs = as_charset(self.const(elt.comparators[0]))
+                except NotConst:
+                    cs = None
+                if cs is None or not src_.startswith("prefix("):
+                    continue
+                guards.append((f"all:{src_}", "in", "".join(sorted(cs))))
+                consumed.add(elt)
+                # a length test on the same slice next to it belongs to the idiom (a short slice contains the sentinel anyway)
+                p = parent(n)
+                while isinstance(p, ast.UnaryOp):
+                    p = parent(p)
+                if isinstance(p, ast.BoolOp):
+                    for v in p.values:
+                        if isinstance(v, ast.Compare) and len(v.ops) == 1 and isinstance(v.left, ast.Call) and dotted(v.left.func) == "len" and v.left.args and self.norm(v.left.args[0]) == src_:
+                            consumed.add(v)
+        return self._validation
 
     def helper(self, call: ast.Call):
         """Side of an unpaired module-level helper of the port that ``call`` invokes (depth-limited)"""
@@ -768,7 +985,10 @@ class Side:
     def fingerprints(self):
         nodes = self.fi.local_nodes()
         guards = Counter()
-        consumed = set()
+        vg, vc, _ = self.validation()
+        consumed = set(vc)
+        for g in vg:
+            guards[g] += 1
         premerged = {}
         for n in nodes:
             if isinstance(n, ast.BoolOp):
@@ -776,22 +996,28 @@ class Side:
                 if mg is not None:
                     premerged[n] = mg
         for n in nodes:
-            if isinstance(n, ast.If) and n.orelse:
+            orelse = list(n.orelse) if isinstance(n, ast.If) else None
+            if isinstance(n, ast.If) and isinstance(n.body[-1], (ast.Return, ast.Raise, ast.Continue)):
+                # early exit instead of nesting: what follows the statement is (part of) the else branch
+                orelse = orelse + _continuation(n)
+            if isinstance(n, ast.If) and (orelse or isinstance(n.body[-1], (ast.Return, ast.Raise, ast.Continue))):
                 t, flip = n.test, False
                 while isinstance(t, ast.UnaryOp) and isinstance(t.op, ast.Not):
                     t, flip = t.operand, not flip
-                if not flip and isinstance(t, ast.BoolOp) and isinstance(t.op, ast.And) and t not in premerged:
+                if isinstance(t, ast.BoolOp) and isinstance(t.op, ast.And) and t not in premerged:
                     cmps = [v for v in t.values if isinstance(v, ast.Compare)]
                     rest = [v for v in t.values if not isinstance(v, ast.Compare)]
                     if len(cmps) == 1 and all(isinstance(v, ast.Name) for v in rest):
                         t = cmps[0]  # `flag and <char guard>`: the flag is accounted for in the flags fingerprint
+                if t in vc:
+                    continue  # part of a validation idiom, already accounted for
                 if (isinstance(t, ast.Compare) and len(t.ops) == 1 and not self.dead(t)) or t in premerged:
                     g = premerged[t][0] if t in premerged else self.guard(t)
                     if t in premerged:
                         consumed.update(premerged.pop(t)[1])
                     if g[1] in NEG:
                         a = sorted(x for s in n.body for x in self.effects(walk_stmt(s)) if not x.startswith("read:"))
-                        b = sorted(x for s in n.orelse for x in self.effects(walk_stmt(s)) if not x.startswith("read:"))
+                        b = sorted(x for s in orelse for x in self.effects(walk_stmt(s)) if not x.startswith("read:"))
                         neg = (g[1] in ("notin", "!=")) != flip
                         if neg:
                             a, b = b, a
@@ -827,10 +1053,8 @@ class Side:
                 v = n.value
                 if isinstance(v, ast.IfExp) or (isinstance(v, ast.Call) and isinstance(v.func, ast.Name) and v.func.id[:1].isupper()):
                     continue  # token construction: the classes differ by design
-                if isinstance(v, ast.Tuple):
-                    emit[f"return:tuple/{len(v.elts)}"] += 1
-                else:
-                    emit["return:" + self.norm(v)] += 1
+                # distinct returned values (an early return repeating one is not a new emission)
+                emit[f"return:tuple/{len(v.elts)}" if isinstance(v, ast.Tuple) else "return:" + self.norm(v)] = 1
         for n in nodes:  # position accounting: stores to the receiver's own fields
             tgt = val = None
             if isinstance(n, ast.Assign) and len(n.targets) == 1:
@@ -854,6 +1078,12 @@ class Side:
                 if isinstance(v, ast.Name):
                     if v.id in self.aug:
                         continue  # `if length:` around forward(length)/prefix(length): guarding a no-op changes nothing
+                    if not pol and isinstance(n, ast.If) and v is n.test and not n.orelse and all(
+                        isinstance(b, ast.Expr) and isinstance(b.value, ast.Call) and isinstance(b.value.func, ast.Attribute) and b.value.func.attr in ("append", "extend")
+                        and len(b.value.args) == 1 and isinstance(b.value.args[0], ast.Name) and b.value.args[0].id == v.id
+                        for b in n.body
+                    ):
+                        continue  # `if xs: out.extend(xs)`: skipping the emission of an empty string/list changes nothing
                     kind = "param" if v.id in self.params else "v"
                 elif isinstance(v, ast.Attribute) and self.is_recv(v.value):
                     if self.yaml and v.attr == "flow_level":
@@ -876,6 +1106,22 @@ class Side:
                     if x.startswith(("return:", "store:")):
                         emit[x] += c
         return guards, do, emit, flags
+
+
+def _continuation(st) -> list:
+    """statements executed after ``st`` completes normally, up to the end of the enclosing loop/function"""
+    out: list = []
+    n = st
+    while True:
+        p = parent(n)
+        blk = next((b for b in (getattr(p, f, None) for f in ("body", "orelse", "finalbody")) if isinstance(b, list) and any(x is n for x in b)), None)
+        if blk is None:
+            return out
+        i = next(j for j, x in enumerate(blk) if x is n)
+        out += blk[i + 1 :]
+        if not isinstance(p, (ast.If, ast.With, ast.Try)):
+            return out
+        n = p
 
 
 def walk_stmt(s):
@@ -905,7 +1151,6 @@ DEVIATIONS: dict[tuple[str, str], dict[str, dict]] = {
     ("_scan_plain_scalar", "emits"): {"yaml": {"store:.allow_simple_key=False": (1, _SIMPLE_KEY)}},
     ("_scan_plain_spaces", "emits"): {"yaml": {"store:.allow_simple_key=True": (1, _SIMPLE_KEY), "return:-": (2, _DOCSEP)}},
     ("StreamBuffer.prefix", "guards"): {"yaml": {("v", ">=", "v"): (1, _REFILL)}},
-    ("StreamBuffer.peek", "emits"): {"yaml": {"return:buffer[]": (1, _REFILL)}},
 }
 
 
@@ -1588,26 +1833,70 @@ class E9:
                 return False, f"`{short(a, 30)}` counts a character that may be the END sentinel (nothing excludes it)"
         return True, f"{k} counts non-END characters ({len(augs)} increment site(s))"
 
-    def hex_loop(self, fi, n_name: str, st):
+    def hex_loop(self, fi, n_name: str, st, within=None):
         """a `for k in range(N)` validation loop before ``st`` that leaves only when N characters are non-END"""
         cfg = get_cfg(fi)
         for L in cfg.nodes:
             if not (isinstance(L, ast.For) and isinstance(L.target, ast.Name) and isinstance(L.iter, ast.Call) and dotted(L.iter.func) == "range" and len(L.iter.args) == 1 and unparse(L.iter.args[0]) == n_name):
                 continue
-            if not self.validating_loop(fi, L):
+            if not self.validating_loop(fi, L, within):
                 continue
             if ("F", L) in cfg.dom().get(st, ()) and not any(isinstance(b, ast.Break) for b in ast.walk(L)) and not self.intervening(cfg, L, st, self.killers(fi, {n_name})):
                 return L
         return None
 
-    def validating_loop(self, fi, L: ast.For) -> bool:
+    def prefix_len_name(self, e, fi, at):
+        """(N, origin statement | None) when ``e`` denotes stream.prefix(N), N a name (directly or through a local)"""
+        if isinstance(e, ast.Call) and self.classify(e, fi)[0] == "prefix" and len(e.args) == 1 and isinstance(e.args[0], ast.Name):
+            return e.args[0].id, None
+        if isinstance(e, ast.Name) and isinstance(at, ast.AST):
+            ds = self.reaching(fi, e.id, at)
+            if len(ds) == 1 and isinstance(ds[0], ast.Assign) and len(ds[0].targets) == 1 and isinstance(ds[0].targets[0], ast.Name):
+                r = self.prefix_len_name(ds[0].value, fi, None)
+                if r is not None:
+                    return r[0], ds[0]
+        return None
+
+    def validated_slice(self, fi, n_name: str, st, within=None):
+        """an `if any(c not in S for c in prefix(N)): raise` (or `not all(c in S ...)`) guard before ``st``, END not in S:
+        a slice cut short by the end of the buffer contains the sentinel, so passing the guard means N non-END characters"""
+        cfg = get_cfg(fi)
+        for g_ in cfg.nodes:
+            if not (isinstance(g_, ast.If) and not g_.orelse and g_.body and isinstance(g_.body[-1], (ast.Raise, ast.Return)) and ("F", g_) in cfg.dom().get(st, ())):
+                continue
+            for t, pol in split_facts(g_.test, False):
+                if not (isinstance(t, ast.Call) and isinstance(t.func, ast.Name) and t.func.id in ("any", "all") and (t.func.id == "all") == pol and len(t.args) == 1 and isinstance(t.args[0], ast.GeneratorExp)):
+                    continue
+                ge = t.args[0]
+                if len(ge.generators) != 1 or ge.generators[0].ifs or not isinstance(ge.generators[0].target, ast.Name):
+                    continue
+                c, elt = ge.generators[0].target.id, ge.elt
+                want = ast.In if t.func.id == "all" else ast.NotIn
+                if not (isinstance(elt, ast.Compare) and len(elt.ops) == 1 and isinstance(elt.ops[0], want) and isinstance(elt.left, ast.Name) and elt.left.id == c):
+                    continue
+                try:
+                    cs = as_charset(self.m.eval_const(elt.comparators[0]))
+                except Unsupported:
+                    cs = None
+                src_ = self.prefix_len_name(ge.generators[0].iter, fi, g_)
+                if cs is None or END in cs or src_ is None or src_[0] != n_name or (within is not None and not cs <= within):
+                    continue
+                origin = src_[1] if src_[1] is not None else g_
+                if not self.intervening(cfg, origin, st, self.killers(fi, {n_name})):
+                    return g_
+        return None
+
+    def validated(self, fi, n_name: str, st, within=None):
+        return self.hex_loop(fi, n_name, st, within) or self.validated_slice(fi, n_name, st, within)
+
+    def validating_loop(self, fi, L: ast.For, within=None) -> bool:
         k = L.target.id
         if any(self.stmt_may_advance(s, fi) for s in ast.walk(L) if isinstance(s, ast.stmt) and s is not L):
             return False
         for s in L.body:
             if isinstance(s, ast.If) and s.body and isinstance(s.body[-1], (ast.Raise, ast.Return)) and not s.orelse:
                 for off, cs, names, o in self.test_facts(s.test, False, fi, s):
-                    if off == k and not cs.has(END):
+                    if off == k and not cs.has(END) and (within is None or cs.subset_of(within)):
                         return True
         return False
 
@@ -1812,8 +2101,8 @@ def r3_in_bounds(corpus: Corpus, rep: Report, tier: str):
                 else:
                     rep.violation("C07.R3", k, site, f"{unparse(call)} inside `for {nm} in range(...)`: the loop does not stop at the first character outside an END-free set, so the look-ahead can run past the sentinel (IndexError)")
                 continue
-            if plus == 0 and e9.hex_loop(fi, nm, st) is not None:
-                rep.ok("C07.R3", k, site, f"J5: a validating range({nm}) loop precedes, all {nm} characters are non-END")
+            if plus == 0 and e9.validated(fi, nm, st) is not None:
+                rep.ok("C07.R3", k, site, f"J5: a validation of the next {nm} characters against an END-free set precedes (loop over peek(k), or any()/all() over prefix({nm}))")
                 continue
             ok, why = e9.counter_ok(fi, nm, st)
             if ok and plus:
@@ -1853,7 +2142,211 @@ def r3_in_bounds(corpus: Corpus, rep: Report, tier: str):
     rep.expect_min("C07.R3", 35, "forward()/peek(k) sites")
 
 
-RULES = [r1_closed_failure_mode, r2_termination, r3_in_bounds, r4_tables, r5_positions]
+# ---------------------------------------------------------------------------
+# R6 state machine around the scanners: dispatch sets, key/value roles, pair assembly
+
+
+def yaml_dispatch(corpus: Corpus) -> dict:
+    """{'block': chars, 'flow': chars}: the characters on which PyYAML's fetch_more_tokens starts a block / quoted scalar"""
+    sib = corpus.sibling("yaml/scanner.py")
+    f = sib.func("Scanner.fetch_more_tokens")
+    kinds = {"fetch_literal": "block", "fetch_folded": "block", "fetch_single": "flow", "fetch_double": "flow"}
+    out: dict = {"block": set(), "flow": set()}
+    for st in f.node.body:
+        if not (isinstance(st, ast.If) and len(st.body) == 1 and isinstance(st.body[0], ast.Return) and isinstance(st.body[0].value, ast.Call)):
+            continue
+        name = (dotted(st.body[0].value.func) or "").replace("self.", "")
+        if name not in kinds:
+            continue
+        cmp_ = next((c for c in ast.walk(st.test) if isinstance(c, ast.Compare) and len(c.ops) == 1 and isinstance(c.ops[0], ast.Eq) and isinstance(c.comparators[0], ast.Constant)), None)
+        if cmp_ is None:
+            raise Unsupported("fetch_more_tokens: dispatch test not understood")
+        ch = cmp_.comparators[0].value
+        # the style handed on must be that very character
+        g = sib.func(f"Scanner.{name}")
+        styles = [kw.value.value for c in ast.walk(g.node) if isinstance(c, ast.Call) for kw in c.keywords if kw.arg == "style" and isinstance(kw.value, ast.Constant)]
+        if styles != [ch]:
+            raise Unsupported(f"PyYAML {name}: style {styles} does not match its dispatch character {ch!r}")
+        out[kinds[name]].add(ch)
+    if len(out["block"]) != 2 or len(out["flow"]) != 2:
+        raise Unsupported("fetch_more_tokens: block/quoted scalar dispatch not found")
+    return {k: frozenset(v) for k, v in out.items()}
+
+
+def _reach1(cfg, start, stops, avoid) -> list:
+    """stop nodes reachable from ``start`` over >= 1 edge without passing an ``avoid`` node"""
+    seen: set = set()
+    hit = []
+    work = list(cfg.succ.get(start, []))
+    while work:
+        n = work.pop()
+        if _nid(n) in seen:
+            continue
+        seen.add(_nid(n))
+        if avoid(n):
+            continue
+        if any(n is s or n == s for s in stops):
+            hit.append(n)
+            continue
+        work.extend(cfg.succ.get(n, []))
+    return hit
+
+
+@rule("C07.R6")
+def r6_state_machine(corpus: Corpus, rep: Report, tier: str):
+    rep.rule("C07.R6", "scalar dispatch sets and styles agree with PyYAML's fetch_more_tokens; key/value roles are not crossed; every key is emitted exactly once; pairs are (key.value, value.value or '')")
+    m = optmod(corpus)
+    e9 = get_e9(corpus)
+    tok = m.func("_tokenize")
+    cfg = get_cfg(tok)
+    oracle = yaml_dispatch(corpus)
+    rep.saw_sibling("yaml/scanner.py")
+    kinds = {"_scan_block_scalar": "block", "_scan_flow_scalar": "flow"}
+    # the colon: the forward() executed under the fact peek() == ':'
+    colon = None
+    for c in tok.local_nodes():
+        if isinstance(c, ast.Call) and e9.classify(c, tok)[0] == "forward":
+            f0 = e9.facts_at(c, tok).get("0", TOP)
+            if not f0.neg and f0.chars == frozenset(":"):
+                colon = cfg.stmt_of(c)
+    if colon is None:
+        raise Unsupported("_tokenize: the statement consuming ':' was not found")
+    n_disp = 0
+    seen: Counter = Counter()
+    for call in sorted((c for c in tok.local_nodes() if isinstance(c, ast.Call) and isinstance(c.func, ast.Name) and c.func.id in m.functions), key=lambda c: (c.lineno, c.col_offset)):
+        callee = m.functions[call.func.id]
+        side = "value" if cfg.dominates(colon, cfg.stmt_of(call)) else "key"
+        seen[(callee.name, side)] += 1
+        tag = f"{tok.fq}|{side} {callee.name}" + (f" #{seen[(callee.name, side)]}" if seen[(callee.name, side)] > 1 else "")
+        site = m.site(call)
+        if callee.name in kinds:
+            n_disp += 1
+            want = oracle[kinds[callee.name]]
+            f0 = e9.facts_at(call, tok).get("0", TOP)
+            k = f"{tag}|dispatch set"
+            if not f0.neg and f0.chars == want:
+                rep.ok("C07.R6", k, site, f"called exactly on {''.join(sorted(want))!r}, as PyYAML")
+            elif f0.is_top():
+                rep.error("C07.R6", f"{site} {callee.name}: the characters it is dispatched on could not be determined")
+            else:
+                rep.violation("C07.R6", k, site, f"{callee.name} is dispatched on {f0!r}; PyYAML starts a {kinds[callee.name]} scalar on exactly {''.join(sorted(want))!r}: the other indicator is read as a plain scalar (or a foreign character as an indicator)")
+            # the style argument is the dispatch character itself
+            if "style" in callee.params:
+                i = callee.params.index("style")
+                a = call.args[i] if i < len(call.args) else next((kw.value for kw in call.keywords if kw.arg == "style"), None)
+                while isinstance(a, ast.Call) and dotted(a.func) == "cast" and len(a.args) == 2:
+                    a = a.args[1]
+                k = f"{tag}|style is the dispatch character"
+                tgt = e9.peek_target(a, tok, cfg.stmt_of(call)) if a is not None else None
+                if tgt is not None and tgt[0] == "0" and (tgt[2] is None or not e9.intervening(cfg, tgt[2], cfg.stmt_of(call), e9.killers(tok))):
+                    rep.ok("C07.R6", k, site)
+                elif isinstance(a, ast.Constant):
+                    rep.violation("C07.R6", k, site, f"style is the constant {a.value!r} while the scanner is entered on {''.join(sorted(want))!r}: the other style is scanned with the wrong folding/quoting rules")
+                else:
+                    rep.error("C07.R6", f"{site} {callee.name}: style argument {short(a, 30) if a is not None else '<missing>'} not understood")
+        if "is_key" in callee.params:
+            i = callee.params.index("is_key")
+            a = call.args[i] if i < len(call.args) else next((kw.value for kw in call.keywords if kw.arg == "is_key"), None)
+            if a is None:
+                d = callee.node.args.defaults
+                pos = callee.node.args.args
+                j = i - (len(pos) - len(d))
+                a = d[j] if 0 <= j < len(d) else None
+            k = f"{tag}|is_key"
+            if isinstance(a, ast.Constant) and isinstance(a.value, bool):
+                if a.value == (side == "key"):
+                    rep.ok("C07.R6", k, site)
+                else:
+                    rep.violation("C07.R6", k, site, f"{callee.name} on the {side} side of ':' is called with is_key={a.value}: a {side} is scanned/typed as the other role, so pairs are mis-assembled (and ': ' handling / line folding follow the wrong rules)")
+            else:
+                rep.error("C07.R6", f"{site} {callee.name}: is_key argument not a literal")
+    if n_disp < 3:
+        rep.error("C07.R6", f"expected the quoted-key, block-value and quoted-value dispatches in _tokenize, found {n_disp}")
+    # -- _to_tokens: every key is emitted exactly once
+    tt = m.func("_to_tokens")
+    cfg = get_cfg(tt)
+    keyvars = [n.target.id for n in tt.local_nodes() if isinstance(n, ast.AnnAssign) and isinstance(n.target, ast.Name) and "KeyToken" in unparse(n.annotation)]
+    if len(keyvars) != 1:
+        raise Unsupported("_to_tokens: the pending-key variable (annotated KeyToken | None) was not found")
+    kv = keyvars[0]
+    assigns = [s for s in cfg.nodes if isinstance(s, (ast.Assign, ast.AnnAssign)) and kv in _assigned(s)]
+    live = [s for s in assigns if not (isinstance(s.value, ast.Constant) and s.value.value is None)]
+
+    def yields_key(n) -> bool:
+        return isinstance(n, ast.Expr) and isinstance(n.value, ast.Yield) and n.value.value is not None and any(isinstance(x, ast.Name) and x.id == kv for x in ast.walk(n.value.value))
+
+    def none_edge(n) -> bool:  # branch outcomes that say "no key pending"
+        if not (isinstance(n, tuple) and n[0] in ("T", "F") and isinstance(n[1], (ast.If, ast.While))):
+            return False
+        for t, pol in split_facts(n[1].test, n[0] == "T"):
+            txt = unparse(t)
+            if (txt == f"{kv} is None" and pol) or (txt in (f"{kv} is not None", kv) and not pol):
+                return True
+        return False
+
+    yields = [s for s in cfg.nodes if yields_key(s)]
+    if not live or not yields:
+        raise Unsupported("_to_tokens: key assignment / yield not found")
+    for a in live:
+        k = f"{tt.fq}|{short(a, 40)} reaches a yield before it is overwritten or the generator ends"
+        lost = _reach1(cfg, a, assigns + [EXIT], lambda n: yields_key(n) or none_edge(n))
+        if lost:
+            where = "the end of the generator" if any(x == EXIT for x in lost) else f"`{short(lost[0], 40)}`"
+            rep.violation("C07.R6", k, m.site(a), f"a pending key can reach {where} without being yielded: a key without value (`a:` followed by another key, or at the end of the block) is dropped from the result, where YAML returns (key, '')")
+        else:
+            rep.ok("C07.R6", k, m.site(a))
+    seen = Counter()
+    for y in sorted(yields, key=lambda s: s.lineno):
+        seen[unparse(y)] += 1
+        k = f"{tt.fq}|{unparse(y)}" + (f" #{seen[unparse(y)]}" if seen[unparse(y)] > 1 else "") + " is followed by a re-assignment before the next yield"
+        again = _reach1(cfg, y, yields, lambda n: (isinstance(n, ast.stmt) and kv in _assigned(n)) or none_edge(n))
+        if again:
+            rep.violation("C07.R6", k, m.site(y), f"after this yield the same key can be yielded again (`{short(again[0], 40)}`) without {kv} being re-assigned: a key with a value is reported a second time with ''")
+        else:
+            rep.ok("C07.R6", k, m.site(y))
+    # -- options_to_items: (key.value, value.value if value is not None else "")
+    oti = m.func("options_to_items")
+    loops = [n for n in oti.local_nodes() if isinstance(n, (ast.For, ast.comprehension)) and isinstance(n.iter, ast.Call) and dotted(n.iter.func) == "_to_tokens"]
+    if len(loops) != 1 or not (isinstance(loops[0].target, ast.Tuple) and len(loops[0].target.elts) == 2 and all(isinstance(e, ast.Name) for e in loops[0].target.elts)):
+        raise Unsupported("options_to_items: iteration over _to_tokens with a (key, value) target not found")
+    kn, vn = (e.id for e in loops[0].target.elts)
+    tuples = [t for t in oti.local_nodes() if isinstance(t, ast.Tuple) and isinstance(t.ctx, ast.Load) and len(t.elts) == 2 and any(isinstance(x, ast.Name) and x.id in (kn, vn) for x in ast.walk(t))]
+    if len(tuples) != 1:
+        raise Unsupported("options_to_items: the (key, value) result tuple was not found")
+    first, second = tuples[0].elts
+    k = f"{oti.fq}|pair = (key.value, value.value or '')"
+    problems = []
+    if unparse(first) != f"{kn}.value":
+        problems.append(f"first component is `{short(first, 40)}`, not {kn}.value")
+    if isinstance(second, ast.IfExp):
+        t = unparse(second.test)
+        some, none = (second.body, second.orelse) if t in (f"{vn} is not None", vn) else (second.orelse, second.body) if t in (f"{vn} is None", f"not {vn}") else (None, None)
+        if some is None:
+            rep.error("C07.R6", f"{m.site(second)} options_to_items: value test `{t}` not understood")
+        else:
+            if unparse(some) != f"{vn}.value":
+                problems.append(f"with a value token the second component is `{short(some, 40)}`, not {vn}.value" + (" (None.value raises AttributeError out of options_to_items)" if unparse(none) == f"{vn}.value" else ""))
+            if not (isinstance(none, ast.Constant) and none.value == ""):
+                problems.append(f"without a value token the second component is `{short(none, 40)}`, not '' (YAML's empty scalar read as a string)")
+    elif unparse(second) == f"{vn}.value":
+        problems.append(f"{vn} may be None (a key without value): {vn}.value raises AttributeError out of options_to_items")
+    else:
+        rep.error("C07.R6", f"{m.site(second)} options_to_items: second component `{short(second, 40)}` not understood")
+    if problems:
+        rep.violation("C07.R6", k, m.site(tuples[0]), "; ".join(problems))
+    else:
+        rep.ok("C07.R6", k, m.site(tuples[0]))
+    rep.expect_min("C07.R6", 12, "dispatches, role flags, key life-cycle and pair construction")
+
+
+RULES = [r1_closed_failure_mode, r2_termination, r3_in_bounds, r4_tables, r5_positions, r6_state_machine]
+
+
+def _ancestors_until(n):
+    p = parent(n)
+    while p is not None and not isinstance(p, (ast.FunctionDef, ast.AsyncFunctionDef)):
+        yield p
+        p = parent(p)
 
 
 def _sub(m: Module, node, text: str) -> str:
@@ -1941,4 +2434,44 @@ def mutants(corpus: Corpus):
     add("c07-clone-none-guard-dropped", "C07.R5", "TokenizeError.clone", lambda n: isinstance(n, ast.IfExp), lambda n: ast.get_source_segment(m.src, n.orelse), "None-guard")
     add("c07-clone-args-swapped", "C07.R5", "_to_tokens", lambda n: isinstance(n, ast.Call) and isinstance(n.func, ast.Attribute) and n.func.attr == "clone", "exc.clone(column_offset, line_offset)", "clone(")
     add("c07-clone-only-when-both-offsets", "C07.R5", "_to_tokens", lambda n: isinstance(n, ast.BoolOp) and unparse(n) == "line_offset or column_offset", "line_offset and column_offset", "either offset")
+    # --- round 2: classes of edits the first round would have missed or only caught indirectly ---
+    add("c07-hex-set-widened", "C07.R1", nl, lambda n: isinstance(n, ast.Constant) and n.value == "0123456789ABCDEFabcdef", '"0123456789ABCDEFabcdefg"', "int(stream.prefix(length), 16)")
+    # (a) NEL dropped consistently from every class, the line-break scanner and the line accounting
+    edits = []
+    for name, node in m.const_nodes.items():
+        if name.startswith("_CHARS_") and isinstance(node, ast.Constant) and isinstance(node.value, str) and "\x85" in node.value:
+            edits.append((node, repr(node.value.replace("\x85", ""))))
+    for fq in ("_scan_line_break", "StreamBuffer.forward"):
+        for n in m.func(fq).local_nodes():
+            if isinstance(n, ast.Constant) and isinstance(n.value, str) and "\x85" in n.value and len(n.value) > 1:
+                edits.append((n, repr(n.value.replace("\x85", ""))))
+    if len(edits) >= 7:
+        src2 = m.src
+        for node, text in sorted(edits, key=lambda e: (-e[0].lineno, -e[0].col_offset)):
+            src2 = splice(src2, node, text)
+        out.append(Mutant("c07-nel-dropped-everywhere", "C07.R4", m.rel, src2, expect="_CHARS_NEWLINE"))
+    else:
+        out.append(("c07-nel-dropped-everywhere", "NEL literals not found"))
+    # (b) a character moved between two classes: TAB leaves END_SPACE_TAB_NEWLINE and joins END_SPACE_NEWLINE
+    a_, b_ = m.const_nodes.get("_CHARS_END_SPACE_TAB_NEWLINE"), m.const_nodes.get("_CHARS_END_SPACE_NEWLINE")
+    if isinstance(a_, ast.Constant) and isinstance(b_, ast.Constant):
+        src2 = m.src
+        for node, text in sorted(((a_, repr(b_.value)), (b_, repr(a_.value))), key=lambda e: -e[0].lineno):
+            src2 = splice(src2, node, text)
+        out.append(Mutant("c07-tab-moved-between-classes", "C07.R4", m.rel, src2, expect="_CHARS_END_SPACE_NEWLINE"))
+    else:
+        out.append(("c07-tab-moved-between-classes", "class constants are not literals"))
+    # (c) clone(): offsets applied to the first line only / one line too far
+    add("c07-clone-column-first-line-only", "C07.R5", "TokenizeError.clone", lambda n: isinstance(n, ast.BinOp) and unparse(n) == "self.problem_mark.column + column_offset", "self.problem_mark.column + (column_offset if self.problem_mark.line == 0 else 0)", "self.problem_mark shifted")
+    add("c07-clone-line-off-by-one", "C07.R5", "TokenizeError.clone", lambda n: isinstance(n, ast.BinOp) and unparse(n) == "self.context_mark.line + line_offset", "self.context_mark.line + line_offset + 1", "self.context_mark shifted")
+    add("c07-position-fields-crossed", "C07.R5", "StreamBuffer.get_position", lambda n: isinstance(n, ast.Call) and dotted(n.func) == "Position", "Position(self._index, self._column, self._line)", "Position.line")
+    # (d) the state machine around the scanners
+    add("c07-folded-indicator-not-dispatched", "C07.R6", "_tokenize", lambda n: isinstance(n, ast.Tuple) and unparse(n) == "('|', '>')", '("|",)', "dispatch set")
+    add("c07-block-style-constant", "C07.R6", "_tokenize", lambda n: isinstance(n, ast.Call) and dotted(n.func) == "cast" and "'|'" in unparse(n.args[0]), '"|"', "style is the dispatch character")
+    add("c07-value-scanned-as-key", "C07.R6", "_tokenize", lambda n: isinstance(n, ast.keyword) and n.arg == "is_key" and unparse(n.value) == "False", "is_key=True", "is_key", nth=1)
+    add("c07-trailing-key-dropped", "C07.R6", "_to_tokens", lambda n: isinstance(n, ast.If) and unparse(n.test) == "key_token is not None" and not any(isinstance(a, (ast.For, ast.While)) for a in _ancestors_until(n)), "pass", "reaches a yield")
+    add("c07-pending-key-overwritten", "C07.R6", "_to_tokens", lambda n: isinstance(n, ast.If) and unparse(n.test) == "key_token is not None" and any(isinstance(a, ast.For) for a in _ancestors_until(n)), "pass", "reaches a yield")
+    add("c07-key-not-cleared-after-value", "C07.R6", "_to_tokens", lambda n: isinstance(n, ast.Assign) and unparse(n) == "key_token = None" and any(isinstance(a, ast.For) for a in _ancestors_until(n)), "pass", "re-assignment before the next yield")
+    add("c07-missing-value-is-none", "C07.R6", "options_to_items", lambda n: isinstance(n, ast.IfExp), lambda n: ast.get_source_segment(m.src, n.body) + " if " + ast.get_source_segment(m.src, n.test) + " else None", "pair =")
+    add("c07-value-test-inverted", "C07.R6", "options_to_items", lambda n: isinstance(n, ast.Compare) and unparse(n) == "value_token is not None", "value_token is None", "pair =")
     return out
